@@ -31,10 +31,10 @@ func Identity() Matrix4x4 {
 
 func (a Matrix4x4) Add(b Matrix4x4) Matrix4x4 {
 	return Matrix4x4{
-		a.X00 + b.X00, a.X10 + b.X10, a.X20 + b.X20, a.X30 + b.X30,
-		a.X01 + b.X01, a.X11 + b.X11, a.X21 + b.X21, a.X31 + b.X31,
-		a.X02 + b.X02, a.X12 + b.X12, a.X22 + b.X22, a.X32 + b.X32,
-		a.X03 + b.X03, a.X13 + b.X13, a.X23 + b.X23, a.X33 + b.X33,
+		X00: a.X00 + b.X00, X01: a.X01 + b.X01, X02: a.X02 + b.X02, X03: a.X03 + b.X03,
+		X10: a.X10 + b.X10, X11: a.X11 + b.X11, X12: a.X12 + b.X12, X13: a.X13 + b.X13,
+		X20: a.X20 + b.X20, X21: a.X21 + b.X21, X22: a.X22 + b.X22, X23: a.X23 + b.X23,
+		X30: a.X30 + b.X30, X31: a.X31 + b.X31, X32: a.X32 + b.X32, X33: a.X33 + b.X33,
 	}
 }
 
